@@ -1,9 +1,18 @@
 mod c11;
+mod c13;
 mod c14;
+mod c21;
+mod keys;
 
 fn main() {
+    // hidden sub-command: the fault-injection child of C21 (RLIMIT_FSIZE applies to this process only)
+    if std::env::args().nth(1).as_deref() == Some("c21-child") {
+        std::process::exit(c21::child_main());
+    }
     vf_kit::dispatch! {
         "c11" => c11::C11::default(),
+        "c13" => c13::C13,
         "c14" => c14::C14,
+        "c21" => c21::C21 { local: false },
     }
 }
